@@ -61,12 +61,13 @@ def prepare(ctx):
                 raise build.BuildError("cpp failed on %s: %s" % (s, p.err.decode(errors="replace")[:300]))
             q = run([stage1, i], timeout=300)
             if q.rc != 0:
-                raise build.BuildError("stage 1 cannot compile its own source %s: %s" % (s, q.err.decode(errors="replace")[:300]))
+                raise build.TreeViolation("stage 1 cannot compile the compiler's own source %s (status %s), so there is no stage 2 and no fixed point: %s"
+                                          % (s, q.rc, q.err.decode(errors="replace")[:300]), {"own": s})
             with open(os.path.join(own, base + ".qbe"), "wb") as f:
                 f.write(q.out)
             mod, errs = ilcheck.validate(q.out)
             if errs:
-                raise build.BuildError("stage 1 emits malformed IL for %s: %s" % (s, errs[:3]))
+                raise build.TreeViolation("stage 1 emits malformed IL for the compiler's own source %s, so there is no stage 2: %s" % (s, errs[:3]), {"own": s})
             c = il2c.translate(mod, "x86_64-sysv")
             cpath = os.path.join(own, base + ".il.c")
             with open(cpath, "w") as f:
